@@ -118,6 +118,14 @@ def check(run):
         env = pf.default_env(rng, specs)
         k = rng.randrange(n)
         rewrites(run, rng, specs, k, env, cheap if not quick else rng.sample(cheap, 6))
+    # generalized shells with different numbers of columns far apart (screened blocks) and close together
+    for it in range(2 if quick else 8):
+        cs = []
+        specs = [rand_shell(rng, 1 + (i + it) % 2, cs, nprim=2, nseg=2 + (i + it) % 2, exp_lo=0.5, exp_hi=20.0) for i in range(2)]
+        if it % 2 == 0:
+            specs[1] = specs[1].copy(center=[float(x) + 40.0 for x in specs[0].center])
+        rewrites(run, rng, specs, it % 2, pf.default_env(rng, specs), ["overlap(tol_screen=1e-8)", "overlap"])
+        run.count("screened overlap, different column counts")
     for it in range(1 if quick else 6):
         cs = []
         specs = [rand_shell(rng, rng.randint(0, 1 if quick else 2), cs, nprim=rng.randint(2, 3), nseg=rng.randint(1, 2), exp_lo=0.1, exp_hi=10.0)
